@@ -660,10 +660,10 @@ func genC07(g *gen, c *sim.Case, tier string) {
 	c.Mode = "wait"
 	c.Sched = sched(r, 2*time.Millisecond, 60000)
 	c.Sched.HorizonNs = int64(time.Hour)
-	if c.Knobs["backend"] == 0 && r.Chance(1, 300) {
+	if c.Knobs["backend"] == 0 && r.Chance(1, 170) {
 		// a bulk load of many thousand records while waiters arrive: whatever the storage does
 		// per record it may do differently per ten thousand (batching, yielding the lock)
-		n := sim.Pick(r, 9000, 17000, 33000)
+		n := sim.Pick(r, 9000, 17000)
 		c.Knobs["bulk_load"] = int64(n)
 		c.Knobs["no_dense"] = 1
 		c.Sched.MaxSteps = 6000000
@@ -674,9 +674,12 @@ func genC07(g *gen, c *sim.Case, tier string) {
 		m.Ops = append(m.Ops, sim.Op{K: "put", S: tail, V: "t1"})
 		m.Ops = append(m.Ops, sim.Op{K: "putmany", S: all, V: fmt.Sprintf("#x:%d:%d:1", n, 2*n)})
 		c.Tasks = append(c.Tasks, m)
-		for i, d := range []time.Duration{time.Microsecond, 10 * time.Microsecond, 100 * time.Microsecond, time.Millisecond, 10 * time.Millisecond} {
+		for i := 0; i < 16; i++ {
+			// arrivals spread over five orders of magnitude: how long the load takes in simulated
+			// time depends on the schedule
+			d := time.Microsecond << uint(i)
 			t := sim.Task{Name: fmt.Sprintf("w%d", i)}
-			t.Ops = append(t.Ops, sim.Op{K: "jump", D: int64(d) * int64(1+r.Intn(9))})
+			t.Ops = append(t.Ops, sim.Op{K: "jump", D: int64(d) + r.I64n(int64(d))})
 			t.Ops = append(t.Ops, sim.Op{K: "wait", S: tail, N: 0, E: 1000 + int64(5*time.Minute)})
 			c.Tasks = append(c.Tasks, t)
 		}
